@@ -147,6 +147,13 @@ func (ex *Exec) applyCall(st *State, fr *Frame, instr ssa.Instruction, c *ssa.Ca
 		k(st, fr, ret)
 		return
 	}
+	if !c.IsInvoke() && isCancelFuncType(c.Value.Type()) {
+		ex.use("external:context.CancelFunc")
+		st.bump(name)
+		ex.cancelCall(st, fnv)
+		k(st, fr, Val{Typ: resT})
+		return
+	}
 	ex.use("havoc-result:" + name)
 	st.bump(name)
 	k(st, fr, ex.symVal(st, resT, "ret."+shortName(name)))
@@ -350,6 +357,7 @@ func (ex *Exec) contractCall(st *State, fr *Frame, instr ssa.Instruction, fn *ss
 	if instr != nil {
 		ord = ex.siteOrdinal(fr.fn, instr, fn.String())
 	}
+	ex.obligeObjInvs(st, fr, pf, fn, key, ord, args, instr)
 	for _, c := range sp.Requires {
 		g := ex.evalClause(st, pf, c, nil)
 		ex.oblige(st, "requires", fmt.Sprintf("%s/call.%s#%d.%s", fr.key, key, ord, c.name()), c.Labels, g, c, ex.posOf(instr))
@@ -365,6 +373,28 @@ func (ex *Exec) contractCall(st *State, fr *Frame, instr ssa.Instruction, fn *ss
 		if !found {
 			ex.oblige(st, "holds", fmt.Sprintf("%s/call.%s#%d.holds.%s", fr.key, key, ord, l), ex.lockLabels(l), "false", nil, ex.posOf(instr))
 		}
+	}
+	for i, o := range sp.Owns {
+		t := ex.evalSpec(st, pf, o, nil).T
+		ok := isFreshRef(t) && !st.published[t]
+		for _, p := range st.pinned {
+			if p == t {
+				ok = true
+			}
+		}
+		goal := "true"
+		if !ok {
+			goal = "false"
+		}
+		ex.oblige(st, "owns", fmt.Sprintf("%s/call.%s#%d.owns%d", fr.key, key, ord, i), ex.firstLabels(sp), goal, nil, ex.posOf(instr))
+		st.published[t] = true
+		var np []string
+		for _, p := range st.pinned {
+			if p != t {
+				np = append(np, p)
+			}
+		}
+		st.pinned = np
 	}
 	// frame
 	var ms *modSet
@@ -437,6 +467,7 @@ func (ex *Exec) doGo(st *State, fr *Frame, x *ssa.Go) {
 	if sp := ex.specs.Funcs[key]; sp != nil {
 		allArgs := args
 		pf := ex.pseudoFrame(target, key, sp, allArgs, binds, st)
+		ex.obligeObjInvs(st, fr, pf, target, key, 0, allArgs, x)
 		for _, cl := range sp.Requires {
 			g := ex.evalClause(st, pf, cl, nil)
 			ex.oblige(st, "requires", fmt.Sprintf("%s/go.%s.%s", fr.key, key, cl.name()), cl.Labels, g, cl, ex.posOf(x))
@@ -551,10 +582,7 @@ func (ex *Exec) doSend(st *State, fr *Frame, instr ssa.Instruction, ch Val, v Va
 	}
 	ex.atCall(st, fr, instr, name, []Val{ch, v})
 	ex.safety(st, fr, instr, "send", "closed", ex.notClosed(st, ch))
-	if cs := ex.chanSpec(ch); cs != nil && cs.MsgInv != nil {
-		g := ex.evalClause(st, fr, cs.MsgInv, map[string]Val{"m": v, "ch": ch})
-		ex.oblige(st, "msginv", fmt.Sprintf("%s/send.%s.%s#%d", fr.key, smtSym(ch.Origin), cs.MsgInv.name(), ex.ordinalOf(fr, instr, "send")), cs.MsgInv.Labels, g, cs.MsgInv, ex.posOf(instr))
-	}
+	ex.sendMsgInv(st, fr, instr, ch, v, fmt.Sprintf("#%d", ex.ordinalOf(fr, instr, "send")))
 	ex.blockingUnderLock(st, fr, instr, ch, blocking)
 	st.bump(name)
 	st.bump("send")
@@ -590,9 +618,9 @@ func (ex *Exec) doRecv(st *State, fr *Frame, instr ssa.Instruction, ch Val, comm
 			st.assume("(=> (not " + okc + ") (= " + v.T + " " + zeroTerm(v.S) + "))")
 		}
 	}
-	if cs != nil && cs.MsgInv != nil {
-		g := ex.evalClause(st, fr, cs.MsgInv, map[string]Val{"m": v, "ch": ch})
-		st.assume(smtImp(ok, g))
+	for _, cc := range ex.specs.ClassList {
+		g := ex.evalClause(st, fr, cc.MsgInv, map[string]Val{"m": v, "ch": ch})
+		st.assume(smtImp(smtAnd(ok, fmt.Sprintf("(= (ch_class %s) %d)", ch.T, cc.ID)), g))
 	}
 	st.bump("recv")
 	if commaOk {
@@ -666,11 +694,27 @@ func (ex *Exec) doSendSel(st *State, fr *Frame, instr ssa.Instruction, idx int, 
 	}
 	ex.atCall(st, fr, instr, name, []Val{ch, v})
 	ex.safety(st, fr, instr, "send", fmt.Sprintf("closed.case%d", idx), ex.notClosed(st, ch))
-	if cs := ex.chanSpec(ch); cs != nil && cs.MsgInv != nil {
-		g := ex.evalClause(st, fr, cs.MsgInv, map[string]Val{"m": v, "ch": ch})
-		ex.oblige(st, "msginv", fmt.Sprintf("%s/send.%s.%s#sel%d", fr.key, smtSym(ch.Origin), cs.MsgInv.name(), ex.ordinalOf(fr, instr, "select")), cs.MsgInv.Labels, g, cs.MsgInv, ex.posOf(instr))
-	}
+	ex.sendMsgInv(st, fr, instr, ch, v, fmt.Sprintf("#sel%d.%d", ex.ordinalOf(fr, instr, "select"), idx))
 	ex.selectUnderLock(st, fr, sel, ch)
 	st.bump(name)
 	st.bump("send")
+}
+
+// sendMsgInv: a message sent on a channel must satisfy the invariant of the channel's class.
+func (ex *Exec) sendMsgInv(st *State, fr *Frame, instr ssa.Instruction, ch Val, v Val, site string) {
+	for _, cc := range ex.specs.ClassList {
+		g := ex.evalClause(st, fr, cc.MsgInv, map[string]Val{"m": v, "ch": ch})
+		goal := smtImp(fmt.Sprintf("(= (ch_class %s) %d)", ch.T, cc.ID), g)
+		ex.oblige(st, "msginv", fmt.Sprintf("%s/send.msginv.%s%s", fr.key, cc.Name, site), cc.MsgInv.Labels, goal, cc.MsgInv, ex.posOf(instr))
+	}
+}
+
+func (ex *Exec) firstLabels(sp *FuncSpec) []string {
+	for _, c := range sp.Requires {
+		return c.Labels
+	}
+	for _, c := range sp.Ensures {
+		return c.Labels
+	}
+	return nil
 }
